@@ -86,12 +86,21 @@ def run(ck):
     ck.prove()
     rng = ck.rng("formulas")
     signal.signal(signal.SIGALRM, _alarm)
+    traced = []
+    orig_cmp = M._compare_to_zero
+
+    def tracer(g, *a, **k):
+        if len(traced) < 200:
+            traced.append(g)
+        return orig_cmp(g, *a, **k)
+    M._compare_to_zero = tracer
     dist = {"verdicts": {}, "with_ceiling": 0, "with_heaviside": 0, "with_minmax": 0, "timeouts": 0, "diff_cases": 0, "exceptions": 0}
     x0, x1 = M.makesymbol("s0"), M.makesymbol("s1")
     corpus = [  # minimised past failures, run first
         (sp.ceiling(x0 / 2) - x0 / 2 - sp.Rational(1, 4), ((x0, 1, 3),)),
         (-x0 + 3 * sp.ceiling(x0 / 3) - 1, ((x0, 1, 3),)),
         (2 * sp.Heaviside(x0 - sp.Rational(5, 2)) - 2 * sp.Heaviside(x1 - sp.Rational(3, 2)), ((x0, 1, 4), (x1, 1, 4))),
+        (-sp.Rational(11, 2) + 12 / (x0 * x1), ((x0, 4, 5), (x1, 4, 7))),
     ]
     for i in range(-len(corpus), ck.n(250, 6000)):
         nsym = rng.randint(1, 3)
@@ -118,6 +127,7 @@ def run(ck):
         dist["with_heaviside"] += has_heav
         dist["with_minmax"] += f.has(sp.Max) or f.has(sp.Min)
         tdz = mode == "sign" and rng.random() < 0.2
+        del traced[:]
         try:
             signal.alarm(60)
             if mode == "sign":
@@ -157,7 +167,27 @@ def run(ck):
         payload = {"formula": str(f), "box": [(str(s), lo, hi) for s, lo, hi in bounds], "mode": mode, "terms_do_not_cross_zero": tdz, "verdict": verdict.name,
                    "counterexample_point": list(pt), "value_there": str(v)}
         finding = None
-        if has_ceil and mode == "sign":
+        # F15 attribution: for some expression the comparator handed to sympy's relational evaluation (`g >= 0` / `g <= 0` under the symbols'
+        # assumptions, at any depth of its recursion) sympy returned a definite truth value that a point of the box contradicts
+        try:
+            bmap = {str(b_[0]): (b_[1], b_[2]) for b_ in bounds}
+            for g in traced[:60]:
+                fs_ = sorted(getattr(g, "free_symbols", ()), key=str)
+                if not fs_ or any(str(x) not in bmap for x in fs_) or g.has(sp.ceiling) or g.has(sp.Heaviside):
+                    continue
+                pts = list(itertools.product(*[range(bmap[str(x)][0], bmap[str(x)][1] + 1) for x in fs_]))
+                if len(pts) > 400:
+                    continue
+                vals_g = [g.subs(dict(zip(fs_, pt_))) for pt_ in pts]
+                for rel, holds in ((g >= 0, lambda x: x >= 0), (g <= 0, lambda x: x <= 0)):
+                    if rel == sp.true and not all(bool(holds(v_)) for v_ in vals_g) or rel == sp.false and any(bool(holds(v_)) for v_ in vals_g):
+                        finding = "F15"
+                        payload["sympy_relational_decided_wrongly_for"] = str(g)
+                if finding:
+                    break
+        except Exception:  # noqa
+            pass
+        if finding is None and has_ceil and mode == "sign":
             # F5 attribution: the verdict is the (correct) verdict of the ceiling-erased formula
             fe = erase(sp, f)
             try:
@@ -179,6 +209,7 @@ def run(ck):
                 pass
         ck.failing_input(payload, finding_id=finding,
                          what=f"verdict {verdict.name} for {'d/d' + str(s) + ' of ' if mode == 'diff' else ''}{f} on {payload['box']} fails at {list(pt)} (value {v})")
+    M._compare_to_zero = orig_cmp
     return ck.finish(
         rule="random formulas of the kinds the cost model emits (sums of monomials in 1-3 positive integer symbols and their reciprocals, ceilings of quotients, Max / Min, Heaviside-gated terms, "
              "constants) on integer boxes with bounds <= 8: the real geq_leq_zero (a fifth with the corner shortcut, only where its precondition holds) and diff_geq_leq_zero (ceiling-free) "
